@@ -186,6 +186,7 @@ class DispatchDriver:
         ctx.handlers = None
         ctx.actions = (None, None, None)
         ctx.registered = set()
+        ctx.clears = 0
         ctx.frames = []
         ctx.config = None
         return ctx
@@ -210,6 +211,10 @@ class DispatchDriver:
         for name in NAMES:
             for s in range(len(SHAPES)):
                 ops.append(('dispatch', name, s))
+        if ctx.registered and ctx.clears < 1:
+            # clear() removes every handler at once: nobody is registered
+            # afterwards, whoever registers again listens to its own events
+            ops.append(('clear',))
         return ops
 
     # primitive steps shared by operations and scripted callbacks
@@ -322,6 +327,11 @@ class DispatchDriver:
             self.do_add(ctx, op[1])
         elif op[0] == 'remove':
             self.do_remove(ctx, op[1])
+        elif op[0] == 'clear':
+            ctx.d.clear()
+            ctx.registered.clear()
+            ctx.clears += 1
+            ctx.hits['clear_then_register_again'] += 1
         elif op[0] == 'dispatch':
             _, name, s = op
             args, kwargs = SHAPES[s]
@@ -348,7 +358,7 @@ class DispatchDriver:
                      if h is not None}
         alive = tuple(h is not None for h in (ctx.handlers or ()))
         return (canon((ctx.d,), lambda o: names.get(id(o))), ctx.config,
-                tuple(sorted(ctx.registered)), alive)
+                tuple(sorted(ctx.registered)), alive, ctx.clears)
 
 
 # -- (a2) an *enabled* dispatcher that still holds a backlog ------------------
@@ -565,7 +575,8 @@ def run(tier, rep):
                      double_registration=1, unknown_event=1,
                      reentrant_remove=1, reentrant_add=1, reentrant_nested=1,
                      args_and_kwargs=1, extends_inherited=1,
-                     overrides_inherited=1, mixin_base=1)
+                     overrides_inherited=1, mixin_base=1,
+                     clear_then_register_again=1)
     orders()
     for name, (driver, kw) in drivers(tier).items():
         kernel.explore(driver, rep, part=name, params=driver.params(), **kw)
